@@ -7,6 +7,7 @@ import (
 	"sync"
 	"sync/atomic"
 	"time"
+	"verif/internal/tcpsim"
 
 	"verif/internal/ev"
 	"verif/internal/fakecluster"
@@ -97,6 +98,10 @@ func c07(r *ev.Run) {
 	c07RefreshTriggers(r)
 	c07ConcurrentReconnect(r)
 	c07HealWhileDialing(r)
+	c07LossWhileAskingWaitsForRoom(r)
+	c07HostVanished(r)
+	r.Require("host_vanished_healed", 1)
+	r.Require("loss_while_asking_waits_for_room_healed", 1)
 	r.Require("histories_judged", int64(reps*len(c07Faults)*3/4))
 	r.Require("new_connections_after_fault", int64(reps*3))
 }
@@ -767,4 +772,249 @@ func c07HealWhileDialing(r *ev.Run) {
 		cb.Close()
 	}
 	r.Require("healed_while_connecting_elsewhere", 2)
+}
+
+// c07LossWhileAskingWaitsForRoom: the connection to a backend is lost while that backend's writer holds an ASK-redirected request and
+// waits for room to queue the ASKING that goes in front of it (the backend had 1024 requests outstanding and had stopped answering).
+// Afterwards the backend answers again: the proxy must reconnect and serve its keys - a writer that never notices the loss keeps the
+// dead connection's client registered for ever.
+func c07LossWhileAskingWaitsForRoom(r *ev.Run) {
+	s, err := startSUT(r, false, 600000, 20)
+	if err != nil {
+		r.Internal("start sut: %v", err)
+		return
+	}
+	defer s.Close()
+	reps := 2
+	if r.Tier == "thorough" {
+		reps = 10
+	}
+	for rep := 0; rep < reps; rep++ {
+		cl, err := fakecluster.New(2, 0)
+		if err != nil {
+			r.Internal("fakecluster: %v", err)
+			return
+		}
+		cl.AssignContiguous()
+		cl.LogArgs = false
+		a, b := cl.Nodes[0], cl.Nodes[1]
+		var bGot int64
+		cl.OnEvent = func(e *fakecluster.Event) {
+			if e.Node == b.Idx {
+				atomic.AddInt64(&bGot, 1)
+			}
+		}
+		svc, err := startRedisSvc(s, cl, cl.Addrs(), RedisOpts{})
+		if err != nil || !svc.WaitRouting(1, 10*time.Second) {
+			cl.Close()
+			r.Internal("service did not start: %v", err)
+			return
+		}
+		func() {
+			defer cl.Close()
+			defer s.StopProc(svc.Name, 20*time.Second)
+			akeys := keysFor(cl, a, 8, "askroom")
+			bkeys := keysFor(cl, b, 1100, "fill")
+			cl.Lock()
+			for _, k := range akeys {
+				sl := fakecluster.Slot([]byte(k))
+				a.SetMigratingLocked(sl, b)
+				b.SetImportingLocked(sl, a)
+			}
+			cl.Unlock()
+			warm, err := svc.Dial()
+			if err != nil {
+				r.Internal("dial: %v", err)
+				return
+			}
+			defer warm.Close()
+			warm.DoS(3*time.Second, "GET", bkeys[0])
+			// the backend stops answering; exactly as many requests as its client keeps "in flight" are written to it
+			atomic.StoreInt32(&b.Silent, 1)
+			base := atomic.LoadInt64(&bGot)
+			filler, err := svc.Dial()
+			if err != nil {
+				r.Internal("dial: %v", err)
+				return
+			}
+			defer filler.Close()
+			// (one MGET: a session keeps at most 32 requests of its own in flight, but a multi-key request is split into one
+			// backend request per key)
+			filler.C.Write(resp.CmdS(append([]string{"MGET"}, bkeys[1:1025]...)...))
+			for i := 0; i < 600 && atomic.LoadInt64(&bGot)-base < 1024; i++ {
+				time.Sleep(5 * time.Millisecond)
+			}
+			if atomic.LoadInt64(&bGot)-base < 1024 {
+				r.Inconclusive("asking-waits-for-room:backend-not-filled")
+				return
+			}
+			// redirected requests: the writer takes the first, writes ASKING and waits for room
+			asker, err := svc.Dial()
+			if err != nil {
+				r.Internal("dial: %v", err)
+				return
+			}
+			defer asker.Close()
+			for _, k := range akeys[:4] {
+				asker.C.Write(resp.CmdS("SET", k, "v"))
+			}
+			time.Sleep(300 * time.Millisecond)
+			// the connection is lost, then the backend is well again
+			atomic.StoreInt32(&b.Silent, 0)
+			b.KillConns(true)
+			// everything that was outstanding is answered (with an error)
+			unanswered := 0
+			if _, err := filler.Read(5 * time.Second); err != nil {
+				unanswered = 1
+			}
+			// and the backend's keys are served again
+			verify, err := svc.Dial()
+			if err != nil {
+				r.Internal("dial: %v", err)
+				return
+			}
+			defer verify.Close()
+			failed := 0
+			var lastErr string
+			for i := 0; i < 30; i++ {
+				ok := false
+				for try := 0; try < 4 && !ok; try++ {
+					v, err := verify.DoS(3*time.Second, "GET", bkeys[1+i])
+					if err == nil && v.Kind != resp.Error {
+						ok = true
+					} else {
+						if err != nil {
+							lastErr = err.Error()
+							verify.Close()
+							verify, _ = svc.Dial()
+						} else {
+							lastErr = v.String()
+						}
+						time.Sleep(time.Second)
+					}
+				}
+				if !ok {
+					failed++
+					if failed >= 3 {
+						break
+					}
+				}
+			}
+			if sutDied(r, s, "loss while ASKING waits for room") {
+				return
+			}
+			w := map[string]interface{}{"round": rep, "outstanding_requests_never_answered": unanswered, "verification_requests_failed": failed, "last_error": lastErr}
+			if failed > 0 {
+				r.Violation("C07:error-while-reachable:loss-while-asking-waits-for-room", "after the connection to a backend with 1024 outstanding requests was lost while its writer was waiting for room to queue an ASKING, the backend's keys are not served although it accepts connections and answers", w)
+			} else if unanswered > 0 {
+				r.Inconclusive("asking-waits-for-room:outstanding-not-answered")
+			} else {
+				r.Count("loss_while_asking_waits_for_room_healed", 1)
+			}
+			r.Case("loss-while-asking-waits-for-room")
+		}()
+	}
+}
+
+// c07HostVanished: the host of a master vanishes - connects to its address time out (a listening socket whose accept queue is full:
+// the kernel drops the SYNs) - and its slots are taken over by another node. With the periodic refresh far away, the failed connects
+// are the proxy's only hint: the new layout must be fetched and the slots served by their new owner.
+func c07HostVanished(r *ev.Run) {
+	s, err := startSUT(r, false, 600000, 20)
+	if err != nil {
+		r.Internal("start sut: %v", err)
+		return
+	}
+	defer s.Close()
+	reps := 2
+	if r.Tier == "thorough" {
+		reps = 8
+	}
+	for rep := 0; rep < reps; rep++ {
+		bh, closeBH, ok := tcpsim.BlackHole()
+		if !ok {
+			closeBH()
+			r.Inconclusive("host-vanished:cannot-emulate-connect-timeouts")
+			return
+		}
+		cl, err := fakecluster.New(2, 0)
+		if err != nil {
+			closeBH()
+			r.Internal("fakecluster: %v", err)
+			return
+		}
+		cl.AssignContiguous()
+		cl.LogArgs = false
+		a, b := cl.Nodes[0], cl.Nodes[1]
+		// until the "failover" every node reports that b's slots live on the vanished host
+		var vanished int32 = 1
+		var fetchesAfter int64
+		for _, n := range cl.Nodes {
+			n := n
+			n.Handler = func(c *fakecluster.Conn, args [][]byte) (fakecluster.Reply, bool) {
+				if len(args) >= 2 && strings.EqualFold(string(args[0]), "cluster") && strings.EqualFold(string(args[1]), "nodes") {
+					if atomic.LoadInt32(&vanished) == 1 {
+						body := strings.ReplaceAll(n.ClusterNodesLocked(), b.Addr, bh) // (handlers run with the cluster lock held)
+						return fakecluster.Reply{Raw: resp.Encode(resp.BS(body))}, true
+					}
+					atomic.AddInt64(&fetchesAfter, 1)
+				}
+				return fakecluster.Reply{}, false
+			}
+		}
+		svc, err := startRedisSvc(s, cl, []string{a.Addr}, RedisOpts{ConnTimeout: 300 * time.Millisecond})
+		if err != nil || !svc.WaitRouting(1, 10*time.Second) {
+			cl.Close()
+			closeBH()
+			r.Internal("service did not start: %v", err)
+			return
+		}
+		func() {
+			defer closeBH()
+			defer cl.Close()
+			defer s.StopProc(svc.Name, 20*time.Second)
+			bkeys := keysFor(cl, b, 60, "gone")
+			conn, err := svc.Dial()
+			if err != nil {
+				r.Internal("dial: %v", err)
+				return
+			}
+			defer func() { conn.Close() }()
+			// the layout changes: b has the slots (it always had them in the simulator; now the nodes say so)
+			atomic.StoreInt32(&vanished, 0)
+			failedFirst := 0
+			served := false
+			var lastErr string
+			for i := 0; i < 40 && !served; i++ {
+				v, err := conn.DoS(5*time.Second, "SET", bkeys[i], "v")
+				switch {
+				case err != nil:
+					lastErr = err.Error()
+					conn.Close()
+					conn, _ = svc.Dial()
+					failedFirst++
+				case v.Kind == resp.Error:
+					lastErr = v.String()
+					failedFirst++
+				default:
+					served = true
+				}
+			}
+			if sutDied(r, s, "host vanished") {
+				return
+			}
+			w := map[string]interface{}{"round": rep, "requests_failed_before_the_first_success": failedFirst, "last_error": lastErr, "cluster_nodes_fetches_after_the_change": atomic.LoadInt64(&fetchesAfter), "vanished_address": bh, "new_owner": b.Addr}
+			if !served {
+				r.Violation("C07:error-while-reachable:host-vanished", "connects to a master's address time out (host gone) and its slots were taken over by a reachable node: 40 requests later the proxy still has not fetched the new layout / still fails the slots' requests", w)
+				return
+			}
+			if failedFirst == 0 {
+				r.Inconclusive("host-vanished:route-never-pointed-at-the-vanished-host")
+				return
+			}
+			r.Count("host_vanished_healed", 1)
+			r.Count("host_vanished_requests_failed_before_healing", int64(failedFirst))
+			r.Case("host-vanished")
+		}()
+	}
 }
